@@ -1,5 +1,5 @@
 From Coq Require Import ZArith NArith List Bool.
-From CL Require Import Base.Sx Base.Res Base.Str Model.Tree Model.Observer.
+From CL Require Import Base.Sx Base.Res Base.Str Model.Tree Model.Observer Model.Summaries.
 Import ListNotations.
 Open Scope Z_scope.
 
@@ -103,6 +103,13 @@ Definition of_sline (l : sline) : sx :=
   | SBlank => L []
   end.
 
+(* serializeSummaries: [0; locale id] | [1; text] *)
+Definition of_sumline (l : sumline) : sx :=
+  match l with
+  | SLocale loc => L [A 0; of_N loc]
+  | SText s => L [A 1; of_str s]
+  end.
+
 (* ---- entry points ------------------------------------------------------- *)
 (* tree ops: [[locale; leaf; xs] ...]  (plain Tree(list) holding integers) *)
 Fixpoint run_ops (t : tree Z) (ops : list (key * list Z)) : result (tree Z) :=
@@ -130,7 +137,8 @@ Definition dispatch (f : Z) (x : sx) : sx :=
          of_list (fun cs => of_ostate (snd cs)) (l_obs st);
          of_result (of_list of_sline) (serialize_details st);
          L [A (exit_code false st); A (exit_code true st)];
-         of_flat of_item (flatten (o_details (l_own st)))]
+         of_flat of_item (flatten (o_details (l_own st)));
+         of_result (of_list of_sumline) (serialize_summaries st)]
   | 2 => (* classify a category name *)
       of_nat (match classify (to_str x) with
               | MissingFile => 0 | ObsoleteFile => 1 | MissingEntity => 2
